@@ -9,12 +9,20 @@
 (***************************************************************************)
 EXTENDS HbTableOps, TLCExt, SequencesExt
 
-CONSTANTS NK, Poss, Tags, Es, OpNames, MaxPa
+CONSTANTS NK, Poss, Tags, Es, OpNames, MaxPa, TK, TRem
 Keys == 0..(NK - 1)
 VARIABLES t, A, hp, chk
 vars == <<t, A, hp, chk>>
 Hashes == [pos : Poss, tag : Tags]
-Init == hp \in [Keys -> Hashes] /\ t = Singleton(Es) /\ A = {} /\ chk = TRUE
+\* start states: the unallocated table and, for every m in TRem, the table built LAWFULLY by TK insertions (classes in turn,
+\* identities 11..) followed by m removals - full load / tombstone saturation, so that the in-place rehash runs with live elements
+TEv(op, k, id) == [op |-> op, t |-> 1, u |-> 0, k |-> k, id |-> id, v |-> 0, vid |-> 0, n |-> 0, j |-> -1, ks |-> <<>>, r |-> <<>>, y |-> <<>>, pn |-> ""]
+RECURSIVE RunLawful(_, _, _)
+RunLawful(tt, es, plan) == IF es = <<>> THEN tt ELSE RunLawful(TableOp(Head(es), tt, plan[Head(es).k], LawfulEnv).t, Tail(es), plan)
+Template(plan, m) == RunLawful(Singleton(Es), [i \in 1..(TK + m) |-> IF i <= TK THEN TEv("t_insert_unique", i % NK, 10 + i) ELSE TEv("t_remove", (i - TK) % NK, 0)], plan)
+Init == /\ hp \in [Keys -> Hashes]
+        /\ t \in {Singleton(Es)} \cup {Template(hp, m) : m \in TRem}
+        /\ A = Elems(t) /\ chk = TRUE
 
 Ev(op, k, id, v, n, ks, r) ==
   [op |-> op, t |-> 1, u |-> 0, k |-> k, id |-> id, v |-> v, vid |-> 0, n |-> n, j |-> -1, ks |-> ks, r |-> r, y |-> <<>>, pn |-> ""]
